@@ -21,7 +21,8 @@ def run(ctx, w):
 
     ctx.rule("K1", "Vt::feed / Vt::feed_str (and their closures) read no parser or terminal state themselves and call nothing but the step, the report and the gc")
     T = c14.Trim(w, S, R)
-    allowed = {A["parser_feed"], A["execute"], S.changes_fn, S.gc_fn}
+    allowed = {A["parser_feed"], A["execute"], S.changes_fn, S.gc_fn, WD.VT_FEED}
+    allowed |= {shared.Epilogue(w, S, a).host for a in (WD.VT_FEED_STR, WD.VT_RESIZE)} - {None}
     for api in (WD.VT_FEED, WD.VT_FEED_STR):
         fns = [api] + [c for (pt, c, u) in E.closure_creations[api]]
         for f in fns:
